@@ -15,6 +15,8 @@ from props import curvecommon as cc
 def run(R):
     thorough = R.tier == "thorough"
     R.model_check("Recode", "MC_Recode.cfg" if not thorough else "MC_Recode4.cfg", need_actions=["Check"], workers=8)
+    # the Barrett reduction of the scalar back-end (HAC 14.42), exhaustively for every modulus and input at small radix: value, wrap branch, <= 2 subtractions
+    R.model_check("Barrett", "MC_Barrett_2_5.cfg" if not thorough else "MC_Barrett_4_3.cfg", need_actions=["StepPlain", "StepWrap", "StepSub1", "StepSub2"], workers=4)
     rb = lambda t, n=32: vlib.prng_bytes(R.seed, "c13/" + t, n)
     evs = []
     seeds = [("seeded%d" % i, rb("seed%d" % i)) for i in range(24 if not thorough else 64)] + [("zero", [0] * 32), ("ones", [255] * 32)]
